@@ -3,7 +3,7 @@ from vlib.tok import f64, s as S, lst
 from checks import regiongen as G
 from checks import arraygen as A
 ID = 'C17'
-THEOREMS = ['Nix.C17.slice_start_after_end', 'Nix.C17.slice_region_spec', 'Nix.C17.slice_arg_given', 'Nix.C17.slice_arg_unspecified', 'Nix.C17.slice_unspecified_full', 'Nix.C17.ndGt_false_iff', 'Nix.C17.view_oob_rejected', 'Nix.C17.view_read_eq_array_read_shifted', 'Nix.C17.transform_base', 'Nix.C17.inBox_window', 'Nix.C17.view_write_frame', 'Nix.C05.sliceDim_eq']
+THEOREMS = ['Nix.C17.slice_start_after_end', 'Nix.C17.slice_region_spec', 'Nix.C17.slice_arg_given', 'Nix.C17.slice_arg_unspecified', 'Nix.C17.slice_arg_unspecified_own_unit', 'Nix.C17.slice_unspecified_full', 'Nix.C17.ndGt_false_iff', 'Nix.C17.view_oob_rejected', 'Nix.C17.view_read_eq_array_read_shifted', 'Nix.C17.transform_base', 'Nix.C17.inBox_window', 'Nix.C17.view_write_frame', 'Nix.C05.sliceDim_eq']
 RULE = ('slices: arrays of rank 1-3 with all descriptor kinds; start/end vectors of length 0..rank (+1), positions on / beside / between / outside '
         'coordinates, start > end, with / without units (own or rescaled), both RangeMatch modes. views: random windows inside arrays of rank 1-3; '
         '(count, offset) requests inside, touching and crossing the window edge; reads and writes interleaved, the array re-read after every write. '
@@ -47,6 +47,15 @@ def gen_slice(rng):
                         if i < len(ends): ends[i] = b
                         units[i] = v
         if rng.random() < 0.15 and units: units = units[:-1]
+    if rng.random() < 0.12:
+        # units for MORE dimensions than start / end entries — the dimension's own unit or another one of the same quantity: an
+        # unspecified dimension is returned in full, whatever unit is given for it
+        units = units[:]
+        for i in range(len(units), rank):
+            u = dims[i].own_unit()
+            if u in G.TIME_UNITS + G.VOLT_UNITS and rng.random() < 0.7:
+                u = rng.choice(G.TIME_UNITS if u in G.TIME_UNITS else G.VOLT_UNITS)
+            units.append(u)
     return shape, dims, starts, ends, units
 
 def view_history(rng, tier):
